@@ -5,7 +5,7 @@ from dataclasses import dataclass, field
 from mindsdb_sql.exceptions import PlanningException
 from mindsdb_sql.parser import ast
 from mindsdb_sql.parser.ast import (Select, Identifier, BetweenOperation, Join, Star, BinaryOperation, Constant,
-                                    NativeQuery, Parameter)
+                                    NativeQuery, Parameter, NullConstant)
 from mindsdb_sql.planner.steps import (FetchDataframeStep, JoinStep, ApplyPredictorStep, SubSelectStep, QueryStep,
                                        MapReduceStep)
 from mindsdb_sql.planner.utils import (query_traversal, filters_to_bin_op)
@@ -22,6 +22,8 @@ class TableInfo:
     predictor_info: dict = None
     join_condition = None
     join_type = None
+    # rows of the table can be replaced with NULLs by an outer join
+    is_nullable = False
     index: int = None
 
 class PlanJoin:
@@ -263,6 +265,45 @@ class PlanJoinTablesQuery:
 
         self.query_context['binary_ops'] = binary_ops
 
+    def check_outer_joins(self, join_sequence):
+        # find tables whose rows can be replaced with NULLs: the ones on the other side of an outer join
+        tables = []
+        for item in join_sequence:
+            if isinstance(item, TableInfo):
+                tables.append(item)
+            elif isinstance(item, Join):
+                join_type = (item.join_type or 'JOIN').upper()
+                nullable = []
+                if join_type in ('LEFT JOIN', 'LEFT OUTER JOIN'):
+                    nullable = tables[-1:]
+                elif join_type == 'RIGHT JOIN':
+                    nullable = tables[:-1]
+                elif join_type in ('FULL JOIN', 'FULL OUTER JOIN', 'OUTER JOIN'):
+                    nullable = tables
+                for table_info in nullable:
+                    table_info.is_nullable = True
+
+    def get_table_filters(self, item):
+        # conditions from 'where' that can be applied to the table before it is joined
+        if not item.is_nullable:
+            return list(item.conditions)
+
+        # Below an outer join only the conditions that are not true for NULL can be used:
+        #   the rows they remove come back filled with NULLs and are removed again by 'where' of the outer query.
+        #   A condition like 'col is null' would accept those rows
+        comparisons = ('=', '!=', '<>', '<', '<=', '>', '>=', 'like', 'not like', 'in', 'not in')
+        filters = []
+        for cond in item.conditions:
+            if isinstance(cond, BetweenOperation):
+                filters.append(cond)
+            elif isinstance(cond, BinaryOperation):
+                op = cond.op.lower()
+                if op in comparisons:
+                    filters.append(cond)
+                elif op == 'is not' and any(isinstance(arg, NullConstant) for arg in cond.args):
+                    filters.append(cond)
+        return filters
+
     def check_use_limit(self, query_in, join_sequence):
         # use limit for first table?
         # if only models
@@ -324,6 +365,7 @@ class PlanJoinTablesQuery:
         query_traversal(query, _check_identifiers)
 
         self.check_query_conditions(query)
+        self.check_outer_joins(join_sequence)
 
         # workaround for 'model join table': swap tables:
         if len(join_sequence) == 3 and join_sequence[0].predictor_info is not None:
@@ -372,7 +414,7 @@ class PlanJoinTablesQuery:
         item.sub_select.parentheses = False
         step = self.planner.plan_select(item.sub_select)
 
-        where = filters_to_bin_op(item.conditions)
+        where = filters_to_bin_op(self.get_table_filters(item))
 
         # apply table alias
         query2 = Select(targets=[Star()], where=where)
@@ -394,7 +436,7 @@ class PlanJoinTablesQuery:
         table.parts.insert(0, item.integration)
         query2 = Select(from_table=table, targets=[Star()])
         # parts = tuple(map(str.lower, table_name.parts))
-        conditions = item.conditions
+        conditions = self.get_table_filters(item)
         if 'or' in self.query_context['binary_ops']:
             # not use conditions
             conditions = []
